@@ -43,7 +43,8 @@ CLAIM = dict(
          'Qc and a model run with them are given as Examples. Range of the numerical validation: per-core scales up to '
          '2^+-420 (2^+-300 in mixed directions); the implementation rescales AFTER the product R @ G, so adjacent cores '
          'whose scales multiply beyond the double range overflow (OverflowError in core_stab) or underflow to zero even '
-         'with use_stab — outside every theorem (exact arithmetic) and outside the generators.',
+         'with use_stab — outside every theorem (exact arithmetic) and outside the generators; this is the KNOWN finding '
+         'C04/stab-adjacent-scale-overflow, whose two inputs are fixed regression cases of the search.',
     technique='Coq proof (induction over the sweeps, ring-generic isometry / Gram lemmas, Reals for magnitudes) + '
               'PrimFloat replay correspondence with recorded LAPACK oracles + dense-reference search')
 TRUSTED = ['Coq 8.16.1 kernel + vm_compute (case evaluation only)',
@@ -761,6 +762,34 @@ def run_oracle(tn, inp):
         return (f'{kind} raised on a valid input: {e!r}'[:300], None, None)
 
 
+KNOWN_KEY = 'C04/stab-adjacent-scale-overflow'
+# the two regression inputs of the known finding (known_findings.json): Y0 with 2^512 resp. 2^-540 on each core, k = 1
+_KF_Y0 = [np.ones((1, 2, 2)), np.array([[[1.], [2.]], [[3.], [5.]]])]
+
+
+def known_cases():
+    D = tt_desc(_KF_Y0)
+    return [['orthogonalize', D, [512, 512], 1, True], ['orthogonalize', D, [-540, -540], 1, True]]
+
+
+def in_known_family(inp):
+    """use_stab=True and the scales of two ADJACENT cores multiply beyond the double range (the weight R of one is
+    multiplied into the other before core_stab rescales), while every single entry is an ordinary double"""
+    kind, D, scales, k, flag = inp[:5]
+    if kind != 'orthogonalize' or flag is not True or len(D) < 2:
+        return False
+    Y0 = tt_of_desc(D)
+    mx = [float(np.max(np.abs(G))) if G.size else 0.0 for G in Y0]
+    if any(not (0 < x < 2.0 ** 60 and x > 2.0 ** -60) for x in mx) or any(abs(s_) > 960 for s_ in scales):
+        return False
+    for j in range(len(D) - 1):
+        a = math.log2(mx[j]) + math.log2(mx[j + 1])
+        e = scales[j] + scales[j + 1] + a
+        if e + math.log2(max(Y0[j].shape[2], 1)) + 1 >= 1023 or e <= -1022:
+            return True
+    return False
+
+
 def shrink(tn, inp, budget=80):
     """greedy shrinking of a failing input: drop the scaling, round the entries, cut ranks and mode sizes"""
     kind, D, scales, k, flag = inp[:5]
@@ -852,20 +881,26 @@ def search(R, ctx, deep, hints):
                 cand.append(['reject-left', D, [0] * d, i, None])
             for i in [0, -1, d, d + 1]:
                 cand.append(['reject-right', D, [0] * d, i, None])
+    cand += known_cases()      # fixed regression cases of the known finding (the generators stay clear of that family)
+    n_known = 0
     for inp in cand:
         n_eval += 1
         f = run_oracle(tn, inp)
         if f:
+            if in_known_family(inp):
+                n_known += 1
+                fails.append(dict(what=f[0], input=inp, got=f[1], expected=f[2], finding_key=KNOWN_KEY))
+                continue
             small = shrink(tn, inp)
             f2 = run_oracle(tn, small)
             if f2:
                 inp, f = small, f2
             fails.append(dict(what=f[0], input=inp, got=f[1], expected=f[2]))
-            if len(fails) >= 5:
+            if len(fails) - n_known >= 5:
                 break
     R.search.append(dict(name='dense reference: same tensor, Gram matrices, ranks, norm on the pivot, p and magnitudes, '
                               'frame / in-place behaviour of the single steps, rejection',
-                         evaluations=n_eval, failures=len(fails), deep=deep))
+                         evaluations=n_eval, failures=len(fails) - n_known, known_finding_cases=n_known, deep=deep))
     return fails
 
 
